@@ -81,6 +81,11 @@ def global_mutations(ctx: Ctx, rule: str, only_rel: str | None = None):
         rel = f.rel
         if only_rel is not None and not rel.endswith(only_rel):
             continue
+        # a memoising decorator keeps results for the life of the process, keyed by the arguments only: what comes back on
+        # a later call is the *same object* (a list a caller has extended since), whatever model or option changed meanwhile
+        for d_ in f.decorators():
+            if d_.split("(")[0].split(".")[-1] in ("cache", "lru_cache"):
+                ctx.fail(rule, f.key(f"memoised::{d_.split('(')[0]}"), f"{f.qualname} is decorated with @{d_.split('(')[0]}: its result is remembered across calls (process-wide, keyed by the arguments only) and handed out again as the same object - output then depends on what was generated before in the process", f.where())
         mod = sm.modules[rel]
         module_names = set()
         for st in mod.body:
